@@ -49,20 +49,25 @@ fn record(rng: &mut Rng, name: &str, bad_dep: bool, bad_loc: bool, lines: &mut V
             let pos = rng.range(0, items.len());
             items.insert(pos, depend(rng, false));
         }
-        body.push(format!("ALL_DEPENDS={}", items.join(*rng.pick(&[" ", "  ", "\t"]))));
+        // list items are separated by ANY Unicode white space (str::split_whitespace), not only ASCII
+        body.push(format!("ALL_DEPENDS={}", items.join(*rng.pick(&[" ", "  ", "\t", "\u{b}", "\u{85}", "\u{a0}", "\u{2003}", "\u{3000} "]))));
     }
     if rng.chance(1, 2) || bad_loc {
         body.push(format!(
             "PKG_LOCATION={}",
-            if bad_loc { *rng.pick(&["a", "../a/b", "a/b/c", "/a/b", ""]) } else { *rng.pick(&["cat/pkg", "../../cat/pkg", "a//b/"]) }
+            if bad_loc {
+                *rng.pick(&["a", "../a/b", "a/b/c", "/a/b", "", "../../../foo", "../../foo/..", "../../../..", "../../a/../b", "./a/b", "../../a"])
+            } else {
+                *rng.pick(&["cat/pkg", "../../cat/pkg", "a//b/", "../..//cat/pkg", "cat/./pkg"])
+            }
         ));
     }
     if rng.chance(1, 3) {
         let n = rng.range(0, 4);
-        body.push(format!("SCAN_DEPENDS={}", (0..n).map(|i| format!("/usr/pkgsrc/f{}.mk", i)).collect::<Vec<_>>().join(" ")));
+        body.push(format!("SCAN_DEPENDS={}", (0..n).map(|i| format!("/usr/pkgsrc/f{}.mk", i)).collect::<Vec<_>>().join(*rng.pick(&[" ", "\t ", "\u{a0}", "\u{2003}", "\u{b}"]))));
     }
     if rng.chance(1, 3) {
-        body.push(format!("MULTI_VERSION={}", rng.pick(&["", " PYTHON_VERSION_REQD=312 ", "A=1 B=2", "x"])));
+        body.push(format!("MULTI_VERSION={}", rng.pick(&["", " PYTHON_VERSION_REQD=312 ", "A=1 B=2", "x", "A=1\u{a0}B=2", "A=1\u{85}B=2\u{2003}C=3"])));
     }
     // noise
     if rng.chance(1, 3) {
